@@ -119,8 +119,11 @@ def main():
         shutil.copytree(os.path.join(REPO, 'docs/spec'), d + '/docs/spec')
         open(os.path.join(d, 'python/pydiffx', f), 'w').write(code)
         tested += 1
-        r = subprocess.run(['/venv/bin/python', '-m', 'pytest', '-q', '-x', '-p', 'no:cacheprovider', 'python'], cwd=d,
-                           capture_output=True, text=True, timeout=600)
+        try:
+            r = subprocess.run(['/venv/bin/python', '-m', 'pytest', '-q', '-x', '-p', 'no:cacheprovider', 'python'], cwd=d,
+                               capture_output=True, text=True, timeout=90)
+        except subprocess.TimeoutExpired:
+            continue            # a hanging mutant: the test suite notices
         if r.returncode != 0:
             continue
         surv += 1
